@@ -16,8 +16,12 @@ def _fix_case(rng, tier, pooled=None):
     for c in ["chr1", "chr2", "chrX"][:rng.randint(1, 3)]:
         pos = 1000
         for k in range(n_t // 2):
-            L = rng.choice([80, 120, 200, 333, 500])
+            L = rng.choice([80, 120, 200, 333, 500, 500, 2])      # an occasional tiny bin: its size-based weight is ~0
             rows.append(dict(chromosome=c, start=pos, end=pos + L, gene="G%d" % (k // 4), kind="t"))
+            if L >= 200 and rng.random() < 0.08:
+                # a nested bin sharing its start with the previous one (genomic order then depends on the end)
+                rows.insert(len(rows) - rng.choice([0, 1]),
+                            dict(chromosome=c, start=pos, end=pos + L // 2, gene="G%d" % (k // 4), kind="t"))
             pos += L + rng.choice([0, 20, 100, 400, 5000])
             if rng.random() < 0.4:
                 A = rng.choice([5000, 20000])
@@ -53,6 +57,8 @@ def _fix_case(rng, tier, pooled=None):
             ref.loc[k, "depth"] = 0.0
         elif u < 0.11:
             ref.loc[k, "gc"] = rng.choice([0.1, 0.29, 0.71, 0.9])
+        elif u < 0.16 and pooled:
+            ref.loc[k, "spread"] = 1.0          # exactly on the threshold: the bin is kept, its spread-based weight is 0
     has_gc = rng.random() < 0.85
     has_rm = rng.random() < 0.85
     cols = ["chromosome", "start", "end", "gene", "log2", "depth", "spread"] + (["gc"] if has_gc else []) + (["rmask"] if has_rm else [])
